@@ -214,6 +214,14 @@ _SPECS = {
     'd3_top_single': {'hierarchy': ['class', 'subclass', 'cluster'],   # D-1 at depth 3
                       'class': {'A': ['s0', 's1']},
                       'subclass': {'s0': ['c0', 'c1'], 's1': ['c2', 'c3']}},
+    # labels reused across levels (legal: names only have to be unique within a level): class 'A' has a
+    # subclass 'A' and a subclass 'B' (while 'B' is also another class); subclass 'B' has the single
+    # cluster 'B'; subclass 'A' has a cluster 'A'
+    'd3_reuse':      {'hierarchy': ['class', 'subclass', 'cluster'],
+                      'class': {'A': ['B', 'A'], 'B': ['C']},
+                      'subclass': {'A': ['A', 'c1'], 'B': ['B'], 'C': ['c3', 'C']}},
+    'd2_reuse':      {'hierarchy': ['class', 'cluster'],
+                      'class': {'B': ['A', 'c2'], 'A': ['B', 'c0', 'c1']}},
 }
 SHAPES = list(_SPECS)
 SHAPES_TOP_SINGLE = ['d2_top_single', 'd3_top_single']
@@ -238,8 +246,12 @@ def normalise_spec(spec):
     return spec
 
 
-def random_taxonomy_spec(rng, depth, max_leaves=6, allow_top_single=False):
-    """random valid tree: `depth` levels, <= max_leaves leaves, single-child parents likely"""
+def random_taxonomy_spec(rng, depth, max_leaves=6, allow_top_single=False, reuse_labels=None):
+    """random valid tree: `depth` levels, <= max_leaves leaves, single-child parents likely;
+    reuse_labels (default: one tree in three): all levels draw their node names from one pool, so the
+    same label names unrelated nodes at different levels"""
+    if reuse_labels is None:
+        reuse_labels = bool(rng.integers(0, 3) == 0)
     names = ['class', 'subclass', 'supertype', 'cluster']
     hierarchy = (names[:depth - 1] + ['cluster']) if depth > 1 else ['cluster']
     n_leaves = int(rng.integers(2, max_leaves + 1))
@@ -255,7 +267,12 @@ def random_taxonomy_spec(rng, depth, max_leaves=6, allow_top_single=False):
     level_nodes = []
     for i, lv in enumerate(hierarchy):
         pre = 'c' if lv == 'cluster' else prefixes[i]
-        level_nodes.append([f'{pre}{j}' for j in range(counts[i])])
+        if reuse_labels:
+            pool = [f'n{j}' for j in range(max(counts))]
+            rng.shuffle(pool)
+            level_nodes.append(pool[:counts[i]])
+        else:
+            level_nodes.append([f'{pre}{j}' for j in range(counts[i])])
     for i in range(depth - 1):
         parents, children = level_nodes[i], list(level_nodes[i + 1])
         rng.shuffle(children)
